@@ -13,6 +13,7 @@ mod lib_api;
 mod pool;
 mod props;
 mod pysrc;
+mod rawjson;
 mod stdlib;
 mod tree;
 
